@@ -31,6 +31,10 @@ fn usage() -> ! {
 
 fn main() {
     let args: Vec<String> = std::env::args().collect();
+    if args.len() >= 2 && args[1] == "__wide_heap_export" {
+        // helper mode of C14 (see props/c14.rs::wide_heap_child): runs on the main thread of a fresh process
+        std::process::exit(props::c14::wide_heap_child(args.get(2).and_then(|s| s.parse().ok()).unwrap_or(1)));
+    }
     if args.len() < 3 {
         usage();
     }
@@ -57,6 +61,7 @@ fn main() {
     let ctx = Ctx { prop: prop.clone(), tier, seed, verif_dir, bin_dir, repo_dir, scratch: scratch.clone(), start: Instant::now(), replaying: replay_file.is_some() };
     util::install_panic_hook();
     let _ = std::fs::create_dir_all(&scratch);
+    std::env::set_var("VERIF_STUB_DIR", scratch.join("stubs"));
 
     let Some(p) = props::lookup(&prop) else {
         eprintln!("unknown property {}", prop);
